@@ -30,7 +30,8 @@ def inputs(rnd, n):
     hdrs = [b'Host: h.example', b'X-A: 1', b'NoColonHere', b': empty-name', b'Content-Length: abc', b'Content-Length: -5',
             b'Content-Length: 99999999999999999999', b'Content-Length: 3', b'Transfer-Encoding: chunked', b'Transfer-Encoding: gzip, chunked',
             b'Transfer-Encoding: \xff', b'X-Bin: \x00\x01\xfe\xff', b'Connection: close', b'X' * 5000 + b': y', b' folded: line',
-            b'Proxy-Authorization: Basic !!!', b'Upgrade: websocket', b'Connection: upgrade', b'Content-Length: 3\r\nContent-Length: 4']
+            b'Proxy-Authorization: Basic !!!', b'Upgrade: websocket', b'Connection: upgrade', b'Content-Length: 3\r\nContent-Length: 4',
+            b'Content-Length: 3\r\nContent-Length: 0', b'Content-Length: 3\r\nContent-Length: -5', b'Content-Length: 0\r\nContent-Length: 3', b'content-length: 5\r\nCONTENT-LENGTH: 2']
     tails = [b'', b'abc', b'0\r\n\r\n', b'zz\r\nabc\r\n0\r\n\r\n', b'3\r\nabc', b'\xff\xff\xff', b'GET / HTTP/1.1\r\n\r\n']
     eols = [b'\r\n', b'\r\n', b'\r\n', b'\n', b'\r']
     out = []
@@ -79,7 +80,7 @@ def one_input(job):
 
 
 def run_inputs(chk, quick):
-    from harness.common import pmap
+    from harness.common import pmap, Hung
     rnd = random.Random(chk.seed * 31 + 9)
     jobs = []
     for raw, kind in inputs(rnd, 420 if quick else 2500):
@@ -89,7 +90,18 @@ def run_inputs(chk, quick):
             style = rnd.choice(['one', 'two', 'few', 'crlf'])
             jobs.append((raw, kind, role_args, role, style, len(jobs) % 5 == 4, rnd.randrange(1 << 30)))
     cases, descs = [], {}
-    for case, desc in pmap(one_input, jobs):
+    hung = 0
+    for job, res in zip(jobs, pmap(one_input, jobs, watchdog=120)):
+        if isinstance(res, Hung):
+            # the proxy never came back from handling these bytes: the whole worker is stalled (also C05)
+            hung += 1
+            raw, kind, _args, role, style, threaded, _s = job
+            where = [ln.strip() for ln in res.where.splitlines() if 'File' in ln][-2:]
+            chk.violation({'clause': 'C06 handling the input never returned (worker stalled)', 'kind': kind},
+                          '%s (%s, %s): the worker was still busy with this input after 120 s, in %s' % (kind, role, style, where),
+                          {'input': raw.decode('latin1')[:500], 'role': role, 'segments': style, 'threaded': threaded, 'stack': res.where})
+            continue
+        case, desc = res
         cid = len(cases) + 1
         case['id'] = cid
         cases.append(case)
@@ -115,6 +127,7 @@ def run_inputs(chk, quick):
         k = descs[c['id']]['kind'] + ' -> ' + o
         kinds[k] = kinds.get(k, 0) + 1
     chk.cov['input_outcomes'] = kinds
+    chk.cov['inputs_never_returning'] = hung
     for c in cases[:2]:
         chk.sample({'case': descs[c['id']], 'input': bytes(c['input']).decode('latin1')[:200], 'client_got': bytes(c['cgot']).decode('latin1')[:200]})
 
